@@ -226,6 +226,15 @@ func registerProto() {
 		}
 		return tuple{in.encode(p, t), iface{}}
 	}
+	I["("+P[:len(P)-1]+".MarshalOptions).MarshalAppend"] = func(in *Interp, fr *frame, fn *ssa.Function, a []value) value {
+		// appends the encoding to the given buffer (in place when it has room, like append)
+		b, _ := a[1].([]value)
+		p, t := msgPtr(a[2])
+		if p == nil {
+			return tuple{b, iface{}}
+		}
+		return tuple{append(b, in.encode(p, t)...), iface{}}
+	}
 	I[P+"Unmarshal"] = func(in *Interp, fr *frame, fn *ssa.Function, a []value) value {
 		b := a[0].([]value)
 		p, t := msgPtr(a[1])
